@@ -54,7 +54,7 @@ Fixpoint rr_seq (o : opts) (sep k : nat) (l : list gblock) {struct l} : list dbl
 Fixpoint rr_items (o : opts) (sp k : nat) (its : list (list gblock)) {struct its} : list (list dblock) :=
   match its with
   | [] => []
-  | it :: r => rr_seq o sp k it :: rr_items o sp (k + heights sp it + sp) r
+  | it :: r => rr_seq o sp k (item_body it) :: rr_items o sp (k + heights sp (item_body it) + sp) r
   end.
 
 Lemma rr_go_eq o sep l : forall k,
@@ -74,7 +74,7 @@ Lemma rr_goi_eq o sp its : forall k,
             match l with
             | [] => []
             | x :: r => rr_block o k x :: go sep (k + height x + sep) r
-            end) sp k it :: goi sp (k + heights sp it + sp) r
+            end) sp k (item_body it) :: goi sp (k + heights sp (item_body it) + sp) r
      end) sp k its = rr_items o sp k its.
 Proof.
   induction its as [|it its IH]; intros k; [reflexivity|]. cbn [rr_items]. rewrite <- IH, <- rr_go_eq. reflexivity.
@@ -124,6 +124,14 @@ Fixpoint dctx (b : dblock) {struct b} : list (list nat) :=
   | _ => []
   end.
 
+(* the line without text of an item carries no heading and no inner context *)
+Lemma glevels_body it : glevels (item_body it) = glevels it.
+Proof. destruct it as [|[[|]|[|]| | | | | | |] ?]; reflexivity. Qed.
+Lemma gctx_body it : flat_map gctx (item_body it) = flat_map gctx it.
+Proof. destruct it as [|[[|]|[|]| | | | | | |] ?]; reflexivity. Qed.
+Lemma Forall_body (P : gblock -> Prop) it : Forall P it -> Forall P (item_body it).
+Proof. intros H. destruct it as [|[[|]|[|]| | | | | | |] ?]; try exact H; now inversion H. Qed.
+
 Lemma dctx_rr_block o : forall b k, dctx (rr_block o k b) = gctx b.
 Proof.
   intros b. induction b as [l|l|la tx|bs IH|its IH|its IH|n l| |h al rows] using gblock_ind'; intros k; try reflexivity.
@@ -132,13 +140,15 @@ Proof.
     cbn [rr_seq flat_map]. now rewrite Hx, IHr.
   - rewrite rr_olist. cbn [dctx gctx]. generalize (sep_of (is_sparse its)) as sp. intros sp. revert k.
     induction IH as [|it r Hit _ IHr]; intros k; [reflexivity|].
-    cbn [rr_items flat_map]. rewrite IHr, hlv_rr_seq. do 2 f_equal.
-    clear - Hit. revert k. induction Hit as [|x r Hx _ IHx]; intros k; [reflexivity|].
+    cbn [rr_items flat_map]. rewrite IHr, hlv_rr_seq, glevels_body. do 2 f_equal.
+    rewrite <- (gctx_body it). apply Forall_body in Hit. revert Hit. generalize (item_body it) as bd.
+    intros bd Hit. clear - Hit. revert k. induction Hit as [|x r Hx _ IHx]; intros k; [reflexivity|].
     cbn [rr_seq flat_map]. now rewrite Hx, IHx.
   - rewrite rr_blist. cbn [dctx gctx]. generalize (sep_of (is_sparse its)) as sp. intros sp. revert k.
     induction IH as [|it r Hit _ IHr]; intros k; [reflexivity|].
-    cbn [rr_items flat_map]. rewrite IHr, hlv_rr_seq. do 2 f_equal.
-    clear - Hit. revert k. induction Hit as [|x r Hx _ IHx]; intros k; [reflexivity|].
+    cbn [rr_items flat_map]. rewrite IHr, hlv_rr_seq, glevels_body. do 2 f_equal.
+    rewrite <- (gctx_body it). apply Forall_body in Hit. revert Hit. generalize (item_body it) as bd.
+    intros bd Hit. clear - Hit. revert k. induction Hit as [|x r Hx _ IHx]; intros k; [reflexivity|].
     cbn [rr_seq flat_map]. now rewrite Hx, IHx.
 Qed.
 
@@ -157,8 +167,14 @@ Proof. unfold rr. rewrite rr_at_seq. apply dctx_rr_seq. Qed.
 
 Definition is_nil {A} (l : list A) : bool := match l with [] => true | _ => false end.
 
-(* quotes and lists are not empty, every item starts with its text; no table *)
-Definition led (it : list gblock) : bool := match it with (GPlain _ | GPara _) :: _ => true | _ => false end.
+(* quotes and lists are not empty; every item starts with its text, or with a line without text and then a
+   code block, a quote, a rule, or a list that more blocks follow; no table *)
+Definition led (it : list gblock) : bool :=
+  match it with
+  | (GPlain [] | GPara []) :: x :: rest => headless_start x rest
+  | (GPlain (_ :: _) | GPara (_ :: _)) :: _ => true
+  | _ => false
+  end.
 Fixpoint gstruct (b : gblock) {struct b} : bool :=
   match b with
   | GQuote bs => negb (is_nil bs) && forallb gstruct bs
@@ -174,7 +190,11 @@ Proof. induction l as [|x l IH]; [reflexivity|]. cbn [forallb]. now rewrite <- I
 
 Definition item_safe (tight : bool) (it : list gblock) : bool :=
   match it with
-  | (GPlain _ | GPara _) :: rest =>
+  | (GPlain [] | GPara []) :: x :: rest =>
+      headless_start x rest &&
+      negb (tight && existsb is_rule_or_table rest) && (negb tight || no_adjacent_quotes (x :: rest)) &&
+      no_adjacent_lists (x :: rest)
+  | (GPlain (_ :: _) | GPara (_ :: _)) :: rest =>
       negb (tight && existsb is_rule_or_table rest) && (negb tight || no_adjacent_quotes rest) && no_adjacent_lists it
   | _ => false
   end.
@@ -185,16 +205,27 @@ Lemma safe_goi_eq o tight its :
      | [] => true
      | it :: r =>
          match it with
-         | (GPlain _ | GPara _) :: rest =>
-             negb (tight && existsb is_rule_or_table rest) && (negb tight || no_adjacent_quotes rest) && no_adjacent_lists it
+         | (GPlain [] | GPara []) :: x :: rest =>
+             headless_start x rest &&
+             negb (tight && existsb is_rule_or_table rest) && (negb tight || no_adjacent_quotes (x :: rest)) &&
+             no_adjacent_lists (x :: rest) &&
+             (fix go (l : list gblock) {struct l} : bool := match l with [] => true | x :: r => safe_block o x && go r end)
+               (x :: rest)
+         | (GPlain (_ :: _) | GPara (_ :: _)) :: rest =>
+             negb (tight && existsb is_rule_or_table rest) && (negb tight || no_adjacent_quotes rest) &&
+             no_adjacent_lists it &&
+             (fix go (l : list gblock) {struct l} : bool := match l with [] => true | x :: r => safe_block o x && go r end) it
          | _ => false
          end &&
-         (fix go (l : list gblock) {struct l} : bool := match l with [] => true | x :: r => safe_block o x && go r end) it &&
          goi tight r
      end) tight its
-  = forallb (fun it => item_safe tight it && forallb (safe_block o) it) its.
+  = forallb (fun it => item_safe tight it && forallb (safe_block o) (item_body it)) its.
 Proof.
-  induction its as [|it its IH]; [reflexivity|]. cbn [forallb]. rewrite <- IH, <- safe_go_eq. reflexivity.
+  induction its as [|it its IH]; [reflexivity|]. cbn [forallb]. rewrite <- IH. lazy beta match fix.
+  destruct it as [|h rest]; [reflexivity|].
+  destruct h as [l|l| | | | | | |]; try reflexivity;
+    (destruct l; [destruct rest as [|x rest]; [reflexivity|]|]; cbn [item_safe item_body];
+     rewrite <- safe_go_eq; reflexivity).
 Qed.
 
 Lemma safe_quote o bs :
@@ -202,15 +233,21 @@ Lemma safe_quote o bs :
 Proof. cbn [safe_block]. destruct bs; [reflexivity|]. now rewrite safe_go_eq. Qed.
 Lemma safe_blist o its :
   safe_block o (GBList its) =
-  match its with [] => false | _ => forallb (fun it => item_safe (negb (is_sparse its)) it && forallb (safe_block o) it) its end.
-Proof. cbn [safe_block]. destruct its; [reflexivity|]. now rewrite safe_goi_eq. Qed.
+  match its with [] => false | _ => forallb (fun it => item_safe (negb (is_sparse its)) it && forallb (safe_block o) (item_body it)) its end.
+Proof. destruct its as [|i0 its]; [reflexivity|]. rewrite <- safe_goi_eq. reflexivity. Qed.
 Lemma safe_olist o its :
   safe_block o (GOList its) =
-  match its with [] => false | _ => forallb (fun it => item_safe (negb (is_sparse its)) it && forallb (safe_block o) it) its end.
-Proof. cbn [safe_block]. destruct its; [reflexivity|]. now rewrite safe_goi_eq. Qed.
+  match its with [] => false | _ => forallb (fun it => item_safe (negb (is_sparse its)) it && forallb (safe_block o) (item_body it)) its end.
+Proof. destruct its as [|i0 its]; [reflexivity|]. rewrite <- safe_goi_eq. reflexivity. Qed.
 
 Lemma item_safe_led tight it : item_safe tight it = true -> led it = true.
-Proof. destruct it as [|[] ?]; cbn; congruence. Qed.
+Proof.
+  destruct it as [|[[|]|[|]| | | | | | |] [|x rest]]; cbn [item_safe led]; try congruence;
+    intros H; repeat (apply andb_prop in H as [H _]); exact H.
+Qed.
+
+Lemma gstruct_body it : forallb gstruct it = forallb gstruct (item_body it).
+Proof. destruct it as [|[[|]|[|]| | | | | | |] ?]; reflexivity. Qed.
 
 Lemma safe_gstruct o : forall b, safe_block o b = true -> gstruct b = true.
 Proof.
@@ -221,14 +258,14 @@ Proof.
   - rewrite safe_olist in H. destruct its as [|i0 its]; [discriminate|].
     cbn [gstruct is_nil negb andb]. apply forallb_forall. intros it Hit.
     rewrite forallb_forall in H. specialize (H it Hit). apply andb_prop in H as [Hl Hs].
-    rewrite (item_safe_led _ _ Hl). cbn [andb]. apply forallb_forall. intros x Hx.
-    rewrite Forall_forall in IH. specialize (IH it Hit). rewrite Forall_forall in IH. apply IH; auto.
+    rewrite (item_safe_led _ _ Hl). cbn [andb]. rewrite gstruct_body. apply forallb_forall. intros x Hx.
+    rewrite Forall_forall in IH. specialize (IH it Hit). apply Forall_body in IH. rewrite Forall_forall in IH. apply IH; auto.
     rewrite forallb_forall in Hs. now apply Hs.
   - rewrite safe_blist in H. destruct its as [|i0 its]; [discriminate|].
     cbn [gstruct is_nil negb andb]. apply forallb_forall. intros it Hit.
     rewrite forallb_forall in H. specialize (H it Hit). apply andb_prop in H as [Hl Hs].
-    rewrite (item_safe_led _ _ Hl). cbn [andb]. apply forallb_forall. intros x Hx.
-    rewrite Forall_forall in IH. specialize (IH it Hit). rewrite Forall_forall in IH. apply IH; auto.
+    rewrite (item_safe_led _ _ Hl). cbn [andb]. rewrite gstruct_body. apply forallb_forall. intros x Hx.
+    rewrite Forall_forall in IH. specialize (IH it Hit). apply Forall_body in IH. rewrite Forall_forall in IH. apply IH; auto.
     rewrite forallb_forall in Hs. now apply Hs.
   - discriminate.
 Qed.
@@ -281,12 +318,21 @@ Section Conserve.
   Qed.
 
   Lemma conserve_item it : Forall CB it -> led it = true -> forallb gstruct it = true ->
-    forall sp k, Forall2 reread_item (flat_map gcontent it) (item_content dir (rr_seq o sp k it)).
+    forall sp k, Forall2 reread_item (flat_map gcontent it) (item_content dir (rr_seq o sp k (item_body it))).
   Proof.
     intros HF Hl Hs sp k. destruct it as [|h rest]; [discriminate|].
     inversion HF as [|? ? _ HFr]; subst. cbn [forallb] in Hs. apply andb_prop in Hs as [_ Hs].
-    destruct h; try discriminate; cbn [rr_seq rr_block item_content flat_map gcontent app lead_inlines];
-      (constructor; [now left | now apply conserve_seq]).
+    assert (Hfull : forall l, Forall2 reread_item (CI l :: flat_map gcontent rest)
+                                (CI (to_ginlines dir (rr_inlines o l)) :: bscontent dir (rr_seq o sp (k + 1 + sp) rest)))
+      by (intros l; constructor; [now left | now apply conserve_seq]).
+    assert (Hnone : forall x r, rest = x :: r -> headless_start x r = true ->
+              Forall2 reread_item (CI [] :: flat_map gcontent rest) (item_content dir (rr_seq o sp k rest))).
+    { intros x r -> Hh. pose proof (conserve_seq (x :: r) HFr Hs sp k) as E.
+      assert (Ei : item_content dir (rr_seq o sp k (x :: r)) = CI [] :: bscontent dir (rr_seq o sp k (x :: r))).
+      { destruct x; try discriminate Hh; try reflexivity; (destruct r as [|y r']; [discriminate Hh | reflexivity]). }
+      rewrite Ei. exact (Forall2_cons (CI []) (CI []) (or_introl eq_refl) E). }
+    destruct h as [l|l| | | | | | |]; try discriminate Hl;
+      (destruct l as [|i l]; [destruct rest as [|x r]; [discriminate Hl | exact (Hnone x r eq_refl Hl)] | exact (Hfull (i :: l))]).
   Qed.
 
   Lemma conserve_items its : Forall (Forall CB) its -> forallb (fun it => led it && forallb gstruct it) its = true ->
@@ -372,8 +418,10 @@ Section Again.
         | [] => []
         | _ => [GBList (map (fun it => match it with
                                        | [] => []
-                                       | h :: body => (if lead_flag body then GPara (lead_line h) else GPlain (lead_line h))
-                                                      :: flat_map D body
+                                       | (DPara _ _ | DHeader _ _ _) as h :: body =>
+                                           (if lead_flag body then GPara (lead_line h) else GPlain (lead_line h))
+                                           :: flat_map D body
+                                       | _ => GPlain [] :: flat_map D it
                                        end) its)]
         end
     | DOList its =>
@@ -381,8 +429,10 @@ Section Again.
         | [] => []
         | _ => [GOList (map (fun it => match it with
                                        | [] => []
-                                       | h :: body => (if lead_flag body then GPara (lead_line h) else GPlain (lead_line h))
-                                                      :: flat_map D body
+                                       | (DPara _ _ | DHeader _ _ _) as h :: body =>
+                                           (if lead_flag body then GPara (lead_line h) else GPlain (lead_line h))
+                                           :: flat_map D body
+                                       | _ => GPlain [] :: flat_map D it
                                        end) its)]
         end
     | _ => dleaf b
@@ -390,23 +440,32 @@ Section Again.
   Definition Ditem (it : list dblock) : list gblock :=
     match it with
     | [] => []
-    | h :: body => (if lead_flag body then GPara (lead_line h) else GPlain (lead_line h)) :: flat_map D body
+    | (DPara _ _ | DHeader _ _ _) as h :: body =>
+        (if lead_flag body then GPara (lead_line h) else GPlain (lead_line h)) :: flat_map D body
+    | _ => GPlain [] :: flat_map D it
     end.
 
-  (* the class: every item starts with a paragraph; levels well nested in every inner context *)
-  Definition okit_head (it : list dblock) : bool := match it with DPara _ _ :: _ => true | _ => false end.
+  (* the class: every item starts with a paragraph, or with a code block, a quote or a rule, or with a list
+     that more blocks follow (an item without text); levels well nested in every inner context *)
   Fixpoint okb (b : dblock) {struct b} : bool :=
     match b with
     | DQuote _ bs => forallb okb bs && well_nested (hlv bs)
     | DOList its | DBList its =>
         forallb (fun it => match it with
                            | DPara _ _ :: body => forallb okb body && well_nested (hlv body)
+                           | (DCode _ _ _ | DQuote _ _ | DRule _) :: _ => forallb okb it && well_nested (hlv it)
+                           | (DBList _ | DOList _) :: _ :: _ => forallb okb it && well_nested (hlv it)
                            | _ => false
                            end) its
     | _ => true
     end.
   Definition okit (it : list dblock) : bool :=
-    match it with DPara _ _ :: body => forallb okb body && well_nested (hlv body) | _ => false end.
+    match it with
+    | DPara _ _ :: body => forallb okb body && well_nested (hlv body)
+    | (DCode _ _ _ | DQuote _ _ | DRule _) :: _ => forallb okb it && well_nested (hlv it)
+    | (DBList _ | DOList _) :: _ :: _ => forallb okb it && well_nested (hlv it)
+    | _ => false
+    end.
 
   Lemma dleaf_depth b d :
     match b with DPara _ _ | DCode _ _ _ | DRule _ | DTable _ _ _ _ => True | _ => False end ->
@@ -441,7 +500,7 @@ Section Again.
     forall f b d, dblock_size b <= n -> 4 * n + 1 <= f -> okb b = true -> is_header b = false ->
       P d (block_tree dir f b) = D b.
   Definition it_ok n :=
-    forall f it, dblocks_size it <= n -> 4 * n + 1 <= f -> okit it = true ->
+    forall f it, dblocks_size it <= n -> 4 * n + 5 <= f -> okit it = true ->
       map (item_of dir) (nmap (item_tree dir f it)) = [Ditem it].
   Definition sec_ok n :=
     forall f bs d, dblocks_size bs <= n -> 4 * n + 3 <= f -> forallb okb bs = true -> headed bs ->
@@ -453,7 +512,7 @@ Section Again.
       P d (blocks_tree dir f bs) = flat_map D bs.
 
   Lemma items_fold n f its :
-    it_ok n -> forallb okit its = true -> (forall it, In it its -> dblocks_size it <= n) -> 4 * n + 1 <= f ->
+    it_ok n -> forallb okit its = true -> (forall it, In it its -> dblocks_size it <= n) -> 4 * n + 5 <= f ->
     map (item_of dir) (nmap (flat_map (item_tree dir f) its)) = map Ditem its.
   Proof.
     intros HI Hok Hsz Hf. induction its as [|it r IH]; [reflexivity|].
@@ -466,6 +525,8 @@ Section Again.
   Lemma okb_list_okit its :
     forallb (fun it => match it with
                        | DPara _ _ :: body => forallb okb body && well_nested (hlv body)
+                       | (DCode _ _ _ | DQuote _ _ | DRule _) :: _ => forallb okb it && well_nested (hlv it)
+                       | (DBList _ | DOList _) :: _ :: _ => forallb okb it && well_nested (hlv it)
                        | _ => false
                        end) its = forallb okit its.
   Proof. reflexivity. Qed.
@@ -491,9 +552,9 @@ Section Again.
       unfold P. cbn [nmap map flat_map tmap norm_node]. rewrite app_nil_r.
       fold (nmap (flat_map (item_tree dir f) its)).
       assert (E : map (item_of dir) (nmap (flat_map (item_tree dir f) its)) = map Ditem its).
-      { apply (items_fold n' f its HI Hok).
-        - intros it Hin. pose proof (items_size_in it its Hin). unfold n'. lia.
-        - unfold n'. destruct its; cbn [items_size] in *; lia. }
+      { destruct its as [|i0 its']; [reflexivity|]. apply (items_fold n' f _ HI Hok).
+        - intros it Hin. pose proof (items_size_in it _ Hin). unfold n'. lia.
+        - unfold n'. cbn [items_size] in *. lia. }
       cbn [project_node]. fold (item_of dir).
       destruct its as [|i0 its']; [reflexivity|].
       destruct (nmap (flat_map (item_tree dir f) (i0 :: its'))) as [|k0 ks] eqn:Ek; [discriminate E|].
@@ -505,29 +566,52 @@ Section Again.
       unfold P. cbn [nmap map flat_map tmap norm_node]. rewrite app_nil_r.
       fold (nmap (flat_map (item_tree dir f) its)).
       assert (E : map (item_of dir) (nmap (flat_map (item_tree dir f) its)) = map Ditem its).
-      { apply (items_fold n' f its HI Hok).
-        - intros it Hin. pose proof (items_size_in it its Hin). unfold n'. lia.
-        - unfold n'. destruct its; cbn [items_size] in *; lia. }
+      { destruct its as [|i0 its']; [reflexivity|]. apply (items_fold n' f _ HI Hok).
+        - intros it Hin. pose proof (items_size_in it _ Hin). unfold n'. lia.
+        - unfold n'. cbn [items_size] in *. lia. }
       cbn [project_node]. fold (item_of dir).
       destruct its as [|i0 its']; [reflexivity|].
       destruct (nmap (flat_map (item_tree dir f) (i0 :: its'))) as [|k0 ks] eqn:Ek; [discriminate E|].
       rewrite E. reflexivity.
   Qed.
 
-  Lemma step_it n : (forall m, m < n -> it_ok m /\ bl_ok m) -> it_ok n.
+  Lemma step_it n : (forall m, m < n -> it_ok m /\ bl_ok m) -> bl_ok n -> it_ok n.
   Proof.
-    intros IH f it Hsz Hf Hok. destruct f as [|f]; [lia|]. rewrite item_tree_S.
-    destruct it as [|h body]; [discriminate|]. rewrite dblocks_size_cons in Hsz.
+    intros IH HBn f it Hsz Hf Hok. destruct f as [|f]; [lia|]. rewrite item_tree_S.
+    destruct it as [|h body]; [discriminate|]. pose proof Hsz as Hsz0. rewrite dblocks_size_cons in Hsz.
     pose proof (dblock_size_pos h) as Hpos.
-    destruct h as [lr l| | | | | | |]; try discriminate.
-    cbn [okit] in Hok. apply andb_prop in Hok as [Hob Hwn].
-    destruct (IH (dblocks_size body) ltac:(lia)) as [_ HB].
-    cbn [nmap map tmap norm_node item_of first_is_leaf]. fold (nmap (blocks_tree dir f body)).
-    rewrite first_leaf_nmap.
-    destruct f as [|[|[|f]]]; try lia. rewrite first_leaf_blocks.
-    fold (P 0 (blocks_tree dir (S (S (S f))) body)).
-    rewrite (HB (S (S (S f))) body 0 (le_n _) ltac:(lia) Hob (wn_pos _ _ Hwn) Hwn).
-    cbn [Ditem lead_line lead_inlines node_inlines]. unfold line0, normalize_inlines. reflexivity.
+    (* an item without text: a section node without text over all its blocks *)
+    assert (Hnone : okit (h :: body) = (forallb okb (h :: body) && well_nested (hlv (h :: body))) ->
+                    lead_flag (h :: body) = false ->
+                    map (item_of dir) (nmap [T None (NSection []) (blocks_tree dir f (h :: body))]) = [Ditem (h :: body)] ->
+                    map (item_of dir) (nmap [T None (NSection []) (blocks_tree dir f (h :: body))]) = [Ditem (h :: body)])
+      by auto.
+    assert (Hgen : lead_flag (h :: body) = false -> Ditem (h :: body) = GPlain [] :: flat_map D (h :: body) ->
+                   forallb okb (h :: body) && well_nested (hlv (h :: body)) = true ->
+                   map (item_of dir) (nmap [T None (NSection []) (blocks_tree dir f (h :: body))]) = [Ditem (h :: body)]).
+    { intros Hlf HD Hok'. apply andb_prop in Hok' as [Hob Hwn].
+      cbn [nmap map tmap norm_node item_of first_is_leaf]. fold (nmap (blocks_tree dir f (h :: body))).
+      rewrite first_leaf_nmap.
+      destruct f as [|[|[|f]]]; try lia. rewrite first_leaf_blocks, Hlf.
+      fold (P 0 (blocks_tree dir (S (S (S f))) (h :: body))).
+      rewrite (HBn (S (S (S f))) (h :: body) 0 Hsz0 ltac:(lia) Hob (wn_pos _ _ Hwn) Hwn).
+      rewrite HD. reflexivity. }
+    clear Hnone.
+    destruct h as [lr l|lr la tx|lr bs|its|its|lr lv l|lr|lr hd al rows]; try discriminate.
+    - (* text first *)
+      cbn [okit] in Hok. apply andb_prop in Hok as [Hob Hwn].
+      destruct (IH (dblocks_size body) ltac:(lia)) as [_ HB].
+      cbn [nmap map tmap norm_node item_of first_is_leaf]. fold (nmap (blocks_tree dir f body)).
+      rewrite first_leaf_nmap.
+      destruct f as [|[|[|f]]]; try lia. rewrite first_leaf_blocks.
+      fold (P 0 (blocks_tree dir (S (S (S f))) body)).
+      rewrite (HB (S (S (S f))) body 0 (le_n _) ltac:(lia) Hob (wn_pos _ _ Hwn) Hwn).
+      cbn [Ditem lead_line lead_inlines node_inlines]. unfold line0, normalize_inlines. reflexivity.
+    - now apply Hgen.
+    - now apply Hgen.
+    - destruct body as [|b1 body]; [discriminate|]. now apply Hgen.
+    - destruct body as [|b1 body]; [discriminate|]. now apply Hgen.
+    - now apply Hgen.
   Qed.
 
   Lemma hlv_header lr lv l r : hlv (DHeader lr lv l :: r) = lv :: hlv r.
@@ -591,9 +675,10 @@ Section Again.
   Proof.
     induction n as [n IH] using lt_wf_ind.
     assert (HBk : bk_ok n) by (apply step_bk; intros m Hm; destruct (IH m Hm) as (_ & ? & _ & ?); auto).
-    assert (HI : it_ok n) by (apply step_it; intros m Hm; destruct (IH m Hm) as (_ & ? & _ & ?); auto).
     assert (HSs : sec_ok n) by (apply step_sec; intros m Hm; destruct (IH m Hm) as (_ & _ & ? & ?); auto).
-    repeat split; auto. now apply step_bl.
+    assert (HBl : bl_ok n) by now apply step_bl.
+    assert (HI : it_ok n) by (apply step_it; [intros m Hm; destruct (IH m Hm) as (_ & ? & _ & ?); auto | exact HBl]).
+    repeat split; auto.
   Qed.
 
   (* the second pass over a note: project after title refresh of the specified tree *)
@@ -674,11 +759,18 @@ Section Again.
   Proof. destruct rest as [|b r]; [reflexivity|]. destruct b; reflexivity. Qed.
 
   Lemma D_rr_item it : Forall DB it -> led it = true -> forallb gstruct it = true ->
-    forall sp k, Ditem (rr_seq o sp k it) = item_again it.
+    forall sp k, Ditem (rr_seq o sp k (item_body it)) = item_again it.
   Proof.
     intros HF Hl Hs sp k. destruct it as [|h rest]; [discriminate|].
     inversion HF as [|? ? _ HFr]; subst. cbn [forallb] in Hs. apply andb_prop in Hs as [_ Hs].
-    destruct h; try discriminate; cbn [rr_seq rr_block Ditem item_again]; rewrite lead_flag_rr, (D_rr_seq rest HFr Hs);
+    assert (Hnone : forall x r, rest = x :: r -> headless_start x r = true -> gline h = [] ->
+                    Ditem (rr_seq o sp k rest) = item_again (h :: rest)).
+    { intros x r -> Hh Hg. cbn [item_again]. rewrite <- (D_rr_seq (x :: r) HFr Hs sp k).
+      unfold lead_again. rewrite Hg.
+      destruct x; try discriminate Hh; try reflexivity; (destruct r as [|y r']; [discriminate Hh | reflexivity]). }
+    destruct h as [l|l| | | | | | |]; try discriminate Hl;
+      (destruct l as [|i l]; [destruct rest as [|x r]; [discriminate Hl | exact (Hnone x r eq_refl Hl eq_refl)]|]);
+      cbn [item_body rr_seq rr_block Ditem item_again]; rewrite lead_flag_rr, (D_rr_seq rest HFr Hs);
       unfold lead_again; cbn [gline lead_line]; reflexivity.
   Qed.
 
@@ -741,8 +833,16 @@ Section Again.
     cbn [rr_items forallb]. rewrite IH by assumption. rewrite andb_true_r.
     destruct it as [|h rest]; [discriminate|]. inversion Hit as [|? ? _ Hr]; subst.
     cbn [forallb] in Hg, Hwg. apply andb_prop in Hg as [_ Hg]. apply andb_prop in Hwg as [_ Hwg].
-    destruct h; try discriminate; cbn [rr_seq rr_block okit]; rewrite (okb_rr_seq rest Hr Hg Hwg), hlv_rr_seq;
-      rewrite glevels_cons in Hwl; exact Hwl.
+    rewrite glevels_cons in Hwl.
+    assert (Hnone : forall x q, rest = x :: q -> headless_start x q = true -> well_nested (glevels rest) = true ->
+                    okit (rr_seq o sp k rest) = true).
+    { intros x q -> Hh Hw.
+      assert (E : okit (rr_seq o sp k (x :: q)) = forallb okb (rr_seq o sp k (x :: q)) && well_nested (hlv (rr_seq o sp k (x :: q))))
+        by (destruct x; try discriminate Hh; try reflexivity; (destruct q as [|y q']; [discriminate Hh | reflexivity])).
+      rewrite E, (okb_rr_seq (x :: q) Hr Hg Hwg), hlv_rr_seq. exact Hw. }
+    destruct h as [l|l| | | | | | |]; try discriminate Hl;
+      (destruct l as [|i l]; [destruct rest as [|x q]; [discriminate Hl | exact (Hnone x q eq_refl Hl Hwl)]|]);
+      cbn [item_body rr_seq rr_block okit]; rewrite (okb_rr_seq rest Hr Hg Hwg), hlv_rr_seq; exact Hwl.
   Qed.
 
   Lemma okb_rr_block : forall b, OB b.
@@ -1006,6 +1106,57 @@ Proof. apply fixpoint_blocks; apply ex_in_class. Qed.
 
 Example ex_levels : hlv (rr ex_opts ex_written) = [1; 2] /\ flat_map dctx (rr ex_opts ex_written) <> [].
 Proof. split; vm_compute; [reflexivity | discriminate]. Qed.
+
+(* items without text: a quote, a rule (written in asterisks), a code block, a list that more blocks follow,
+   each right after the marker; the line without text of these items is not written *)
+Definition ex2_blocks : list dblock :=
+  [DHeader (0, 1) 1 [Str "T"];
+   DBList [[DQuote (2, 3) [DPara (2, 3) [Str "q"]]];
+           [DRule (3, 4)];
+           [DCode (4, 6) None "c
+"];
+           [DBList [[DPara (7, 8) [Str "x"]]]; DCode (8, 10) None "d
+"]]].
+Definition ex2_tree : tree := tmap (norm_node ex_ctx) (spec_tree ex_key ex2_blocks).
+Definition ex2_written : list gblock := project (key_parent ex_key) ex2_tree.
+
+Example ex2_written_blocks :
+  ex2_written =
+  [GHeader 1 [Str "T"];
+   GBList [[GPlain []; GQuote [GPara [Str "q"]]];
+           [GPlain []; GRule];
+           [GPlain []; GCode None "c
+"];
+           [GPlain []; GBList [[GPlain [Str "x"]]]; GCode None "d
+"]]].
+Proof. vm_compute. reflexivity. Qed.
+
+Example ex2_written_text :
+  tree_to_markdown ex_opts [] (key_parent ex_key) ex2_tree =
+"# T
+
+- > q
+- ************************************************************************
+- ```
+  c
+  ```
+- - x
+  ```
+  d
+  ```
+".
+Proof. vm_compute. reflexivity. Qed.
+
+Example ex2_in_class :
+  reparse_safe ex_opts ex2_written = true /\ settled ex_ctx (key_parent ex_key) ex_opts ex2_written = true.
+Proof. split; vm_compute; reflexivity. Qed.
+
+Example ex2_rr : rr ex_opts ex2_written = ex2_blocks.
+Proof. vm_compute. reflexivity. Qed.
+
+Example ex2_fixpoint :
+  project (key_parent ex_key) (tmap (norm_node ex_ctx) (spec_tree ex_key (rr ex_opts ex2_written))) = ex2_written.
+Proof. apply fixpoint_blocks; apply ex2_in_class. Qed.
 
 (* not every first-pass output is settled: text left in two pieces by a soft break is re-read in one
    piece (the written text is the same, the blocks are not) *)
